@@ -312,7 +312,7 @@ func fromSessionBody(fn *ssa.Function, v ssa.Value) bool {
 	}
 	a, ok := base.(*ssa.Alloc)
 	if !ok {
-		return false
+		return decodedByHelper(fn, base)
 	}
 	for dc, da := range decodeCalls(fn, "") {
 		if da == a && isRequestBody(dc.Common().Args[0]) {
@@ -320,6 +320,77 @@ func fromSessionBody(fn *ssa.Function, v ssa.Value) bool {
 		}
 	}
 	return false
+}
+
+// decodedByHelper: base is the pointer a statically called helper returns, where the helper is given this
+// function's request and returns, at that result position, only nil or the address of a body it decoded
+// from its own request's Body.
+func decodedByHelper(fn *ssa.Function, base ssa.Value) bool {
+	idx := 0
+	var call *ssa.Call
+	switch x := base.(type) {
+	case *ssa.Extract:
+		idx = x.Index
+		call, _ = x.Tuple.(*ssa.Call)
+	case *ssa.Call:
+		call = x
+	}
+	if call == nil {
+		return false
+	}
+	g := call.Common().StaticCallee()
+	if g == nil || len(g.Blocks) == 0 {
+		return false
+	}
+	// the helper sees this function's request
+	sawReq := false
+	for _, a := range call.Common().Args {
+		if !typeIs(a.Type(), modPath, "Request") {
+			continue
+		}
+		v := a
+		if u, ok := v.(*ssa.UnOp); ok && u.Op == token.MUL {
+			if al, ok := u.X.(*ssa.Alloc); ok && isParamSpill(al) {
+				sawReq = true
+			}
+		}
+		if _, ok := v.(*ssa.Parameter); ok {
+			sawReq = true
+		}
+	}
+	if !sawReq {
+		return false
+	}
+	dcs := decodeCalls(g, "")
+	n := 0
+	for _, b := range g.Blocks {
+		ret, ok := b.Instrs[len(b.Instrs)-1].(*ssa.Return)
+		if !ok || b == g.Recover {
+			continue
+		}
+		if idx >= len(ret.Results) {
+			return false
+		}
+		res := ret.Results[idx]
+		if isNilConst(res) {
+			continue
+		}
+		al, ok := res.(*ssa.Alloc)
+		if !ok {
+			return false
+		}
+		good := false
+		for dc, da := range dcs {
+			if da == al && isRequestBody(dc.Common().Args[0]) {
+				good = true
+			}
+		}
+		if !good {
+			return false
+		}
+		n++
+	}
+	return n > 0
 }
 
 // ruleEmptyPasswordBeforeAuthenticator: the delegation to the authenticator is dominated by the
